@@ -263,16 +263,16 @@ func (st *State) classHavocked(class string) bool {
 	if preservedClass(class) {
 		return false
 	}
+	for _, p := range st.HavPrefix {
+		if class == p || classMatches(class, p) {
+			return true
+		}
+	}
 	if isGhostClass(class) {
 		return st.HavGhost
 	}
 	if isRepoClass(class) && st.HavRepo || !isRepoClass(class) && st.HavExt {
 		return true
-	}
-	for _, p := range st.HavPrefix {
-		if class == p || classMatches(class, p) {
-			return true
-		}
 	}
 	return false
 }
